@@ -4,12 +4,13 @@
 //!
 //! Writes a JSON report (see report.rs) to FILE; `./check` turns it into the verdict and the evidence.
 
-mod c02;
-mod driver;
-mod pdfwrite;
-mod report;
-mod rng;
-mod util;
+pub mod driver;
+pub mod pdfwrite;
+pub mod report;
+pub mod rng;
+pub mod util;
+mod registry;
+pub use registry::*;
 
 use std::time::Instant;
 
@@ -47,9 +48,9 @@ fn main() {
     let t0 = Instant::now();
     // a replay file stores the failing case under "replay" (oracle failure) or is itself the case
     let rp = replay.as_ref().map(|r| if r.get("replay").map(|x| x.is_object()).unwrap_or(false) { &r["replay"] } else { r });
-    let report = match prop.as_str() {
-        "C02" => c02::run(&drv, seed, thorough, rp),
-        p => { eprintln!("unknown property {}", p); std::process::exit(2); }
+    let report = match registry::run(&prop, &drv, seed, thorough, rp) {
+        Some(r) => r,
+        None => { eprintln!("unknown property {}", prop); std::process::exit(2); }
     };
     let mut j = report.to_json();
     j["wall_s"] = serde_json::json!(t0.elapsed().as_secs_f64());
